@@ -484,7 +484,13 @@ class StmtsMixin:
             m.present.pop(key, None)
             return V.vconc(m)
         if isinstance(val.shape, ConcS) and isinstance(val.d, IsliceObj):
-            val = self.islice_to_seq(val.d)
+            vs = (s.val if isinstance(s, (DictS, MapS)) else None)
+            if isinstance(vs, V.ViewS):
+                if val.d.seq is not vs.base and not (val.d.seq.d[1] is vs.base.d[1]):
+                    raise OutOfSubset("islice over a different list than the declared view base")
+                val = Val(vs, (val.d.lo, val.d.hi))
+            else:
+                val = self.islice_to_seq(val.d)
         if isinstance(s, (DictS, MapS)):
             ik = self.as_sym(idx)
             ks = s.key
@@ -502,7 +508,7 @@ class StmtsMixin:
             return Val(s, (newmap, newkeys))
         if isinstance(s, MapS):
             k = V.leaves(V.coerce(self.as_sym(idx), s.key))[0]
-            v = V.coerce(self.as_sym(val), s.val)
+            v = val if val.shape == s.val else V.coerce(val if isinstance(val.shape, ConcS) else self.as_sym(val), s.val)
             pres = z3.Store(cont.d[0], k, z3.BoolVal(True))
             arrs = [z3.Store(a, k, l) for a, l in zip(cont.d[1], V.leaves(v))]
             return Val(s, (pres, arrs))
